@@ -36,7 +36,7 @@ ASSUMPTIONS = ["keys handed to the constructor are distinct (the library's docum
 def _history(rng, keys, absent, n_ops, lo=-9):
     ops = []
     for _ in range(n_ops):
-        t = rng.choice(["getvec", "getvec", "get1", "setscalar", "seteach", "fill", "contains", "items", "hs_contains", "zeros_like", "ones_like", "add_self", "eq_self", "add_perm"])
+        t = rng.choice(["getvec", "getvec", "get1", "setscalar", "seteach", "fill", "contains", "items", "hs_contains", "zeros_like", "ones_like", "add_self", "eq_self", "eq_other", "add_perm"])
         if t == "getvec":
             ops.append({"t": t, "ks": htgen.queries(rng, keys, absent)})
         elif t == "get1":
@@ -48,6 +48,9 @@ def _history(rng, keys, absent, n_ops, lo=-9):
             ops.append({"t": t, "ks": ks, "xs": [rng.randint(lo, 99) for _ in ks]})
         elif t == "fill":
             ops.append({"t": t, "x": rng.randint(lo, 99)})
+        elif t == "eq_other":
+            # == against a table over the same keys (same order) whose value for ONE key differs / does not differ
+            ops.append({"t": t, "i": rng.randrange(len(keys)), "delta": rng.choice([0, 1, 1, -1])})
         elif t == "add_perm":
             # t + t2 where t2 holds the SAME keys, handed to the constructor in another order, with its own values
             perm = list(range(len(keys))); rng.shuffle(perm)
@@ -151,6 +154,11 @@ def run_impl(p):
                     return htgen.sort_pairs((kk, _num(v)) for kk, v in r.to_dict().items())
                 if k == "eq_self":
                     return bool(t == t)
+                if k == "eq_other":
+                    cur = [_num(x) for x in t[keys]]
+                    cur[o["i"]] = cur[o["i"]] + o["delta"]
+                    t2 = HashTable(keys, np.array(cur), **kw)
+                    return bool(t == t2)
             try:
                 r = one()
                 trace.append(None if r == "not-judged" else ({"k": "refuse"} if r is None else json_safe(r)))
@@ -206,6 +214,8 @@ def oracle(p):
             trace.append(htgen.sort_pairs((q, v + d2[q]) for q, v in d.items()))
         elif k == "eq_self":
             trace.append(True)
+        elif k == "eq_other":
+            trace.append(o["delta"] == 0)
     return {"k": "trace", "v": trace}
 
 
